@@ -28,7 +28,8 @@ SPEC = dict(
           "#groups omitted, #groups present) of the grammar cases"),
     assumptions=["R1 (bvmon/ref.py) is the independent renderer/recogniser written from the README part table",
                  "states are reachable: what re-reading the rendered text yields (hidden TAG/NUM never leak)"],
-    required=["calendar_renders", "grammar_renders", "chain_steps", "groups_omitted_cases", "groups_present_cases"],
+    required=["calendar_renders", "grammar_renders", "bumped_state_renders", "chain_steps", "groups_omitted_cases",
+              "groups_present_cases"],
     anchors=[("v2patterns", "_compile_pattern_re"), ("v2patterns", "_replace_pattern_parts"),
              ("v2version", "parse_version_info"), ("v2version", "_parse_segtree"), ("v2version", "_format_segment"),
              ("v2version", "_format_segment_tree")],
@@ -58,6 +59,8 @@ def cases(ctx):
             yield {"kind": "dates", "y0": y, "y1": y, "mode": "all", "two_digit": True}
     for _ in range(ctx.size(20000, 500000)):
         yield {"kind": "grammar", "seed": ctx.rng.getrandbits(48)}
+    for _ in range(ctx.size(20000, 400000)):
+        yield {"kind": "bumped", "seed": ctx.rng.getrandbits(48)}
     for _ in range(ctx.size(200, 2000)):
         yield {"kind": "chain", "seed": ctx.rng.getrandbits(48), "steps": 50 if ctx.quick else 200}
 
@@ -68,6 +71,12 @@ def mk_vinfo(bvv, st):
               tag=st.get("tag", "final"), pytag=ref.TAGS[st.get("tag", "final")], githash="", hexhash="",
               num=st.get("num", 0), inc0=st.get("inc0", 0), inc1=st.get("inc1", 1))
     return bvv.V2VersionInfo(**kw)
+
+
+def classify_bumped(names, old, fl, st, what):
+    if old.get("tag") == "final" and fl.get("tag") == "final" and fl.get("tag_num") and "NUM" in names:
+        return "final_tag_with_tag_number:" + what
+    return classify(names, st, what)
 
 
 def classify(names, st, what):
@@ -225,6 +234,53 @@ def run_case(ctx, case):
         if pr:
             ctx.counters["groups_present_cases"] += 1
         ctx.evaluated((ref.shape(ast), om, pr), sample={"pattern": p, "rendered": t})
+        return
+    if kind == "bumped":
+        # states REACHED BY BUMPING: whatever the real incr() returns from a reachable state must round-trip
+        bvv, v2v = mods
+        p = gen.gen_pattern(R)
+        ast = ref.parse_pattern(p)
+        names = list(ref.parts_in(ast))
+        d, st0 = gen.gen_state(R, names)
+        rs = gen.reachable(ast, st0, tdy)
+        if rs is None or ref.n_full_parses(ast, rs[0]) != 1 or not ref.week_pairing_ok(names):
+            raise harness.Skip("unreachable-state")
+        fl = gen.gen_flags(R, names, applicable_only=R.random() < 0.8)
+        if "NUM" in names and R.random() < 0.3:
+            fl["tag"], fl["tag_num"] = R.choice(["final", "final", rs[1]["tag"]]), True
+        date = d + dt.timedelta(R.choice(gen.DATE_OFFSETS))
+        c = {"kind": "bumped", "seed": case["seed"]}
+        args = ["test", rs[0], p] + gen.flags_to_args(fl, date)
+        res = harness.invoke(args)
+        if res.exit_code != 0:
+            if res.crash and not res.crash.startswith("OverflowError"):
+                ctx.violation("other:crash", f"{args}: {res.crash}", case=c)
+            ctx.count("bumped_refused")
+            raise harness.Skip("refused")
+        new = res.stdout_value("New Version: ")
+        y_ok = all(not ((any(n in names for n in two) and not 2001 <= y <= 2099) or (four in names and not 1000 <= y <= 9999))
+                   for two, four, y in ((("YY", "0Y"), "YYYY", date.year), (("GG", "0G"), "GGGG", date.isocalendar()[0])))
+        if not y_ok:
+            raise harness.Skip("year-outside-documented-range")
+        what = f"bumpver {' '.join(args)}"
+        ctx.counters["bumped_state_renders"] += 1
+        if fl.get("tag") == rs[1]["tag"] and fl.get("tag_num"):
+            ctx.count("bumped_same_tag_with_tag_num")
+        key = (ref.shape(ast), "bumped", fl.get("tag") or "-", bool(fl.get("tag_num")))
+        try:
+            back = harness.call(v2v.parse_version_info, new, p)
+        except bvv.PatternError as ex:
+            st = ref.state_from_raw(ref.parse(ast, new), tdy) if ref.parse(ast, new) else {}
+            ctx.violation(classify_bumped(names, rs[1], fl, st, "not-recognised"),
+                          f"{what} announced {new!r}, which its own recogniser rejects: {str(ex)[:120]}", case=c)
+            return
+        t2 = v2v.format_version(back, p)
+        if t2 != new:
+            st = ref.state_from_raw(ref.parse(ast, new), tdy) if ref.parse(ast, new) else {}
+            ctx.violation(classify_bumped(names, rs[1], fl, st, "rerender_differs"),
+                          f"{what} announced {new!r}; read back and rendered again it is {t2!r}", case=c)
+            return
+        ctx.evaluated(key)
         return
     if kind == "chain":
         return run_chain(ctx, case, R, tdy)
